@@ -14,6 +14,7 @@ from vc2_conformance.decoder.io import (
 
 from vc2_conformance.decoder.exceptions import (
     FragmentedPictureRestarted,
+    FragmentSlicesBeforeInitialFragment,
     PictureNumberChangedMidFragmentedPicture,
     TooManySlicesInFragmentedPicture,
     FragmentSlicesNotContiguous,
@@ -85,6 +86,14 @@ def fragment_header(state):
 
         state["_picture_initial_fragment_offset"] = fragment_offset
     else:
+        # (14.2) A fragmented picture must start with a fragment with
+        # fragment_slice_count==0 (which carries the transform parameters).
+        if "_picture_initial_fragment_offset" not in state:
+            raise FragmentSlicesBeforeInitialFragment(
+                fragment_offset,
+                state["fragment_slice_count"],
+            )
+
         # (14.2) Appart from when fragment_slice_count==0, the picture number
         # must not change
         if state["_last_picture_number"] != state["picture_number"]:
